@@ -70,7 +70,7 @@ Section Oracles.
         | None =>
             match int_text t with
             | Some z => PBig z
-            | None => match t with 45%N :: _ => PFlt (finf true) | _ => PFlt (finf false) end
+            | None => PFlt (finf (starts_minus t))
             end
         end
     end.
